@@ -4,6 +4,7 @@
   seedtest.py confirm <worktree> <dir-with patch.diff+demo.rs>     confirm in a scratch worktree of /repo: clean -> demo passes;
                                                                    patched -> builds, 72 tests pass, demo fails; then revert
   seedtest.py run <patch.diff> <pid> [<pid> ...] [--tier T]        apply to /repo, run ./check for each property, undo
+  seedtest.py run <patch.diff|-> <pid> ... --slot K                the same against a scratch worktree + private copies under /tmp/seedslot_K
 """
 import json, os, re, subprocess, sys, time
 
@@ -43,6 +44,44 @@ def confirm(wt, d):
     return res
 
 
+def run_isolated(patch, pids, tier, slot):
+    """Run the checks against a scratch worktree of /repo with the patch applied, using private copies of
+    coq/, harness/ and out/ (slot directory under /tmp), so that /repo and /verif are never touched and
+    several seeded changes can be tried in parallel."""
+    S = "/tmp/seedslot_%s" % slot
+    os.makedirs(S, exist_ok=True)
+    repo = os.path.join(S, "repo")
+    if not os.path.exists(repo):
+        rc, out = sh(["git", "-C", "/repo", "worktree", "add", "-q", "--detach", repo, "HEAD"])
+        if rc != 0:
+            raise SystemExit("worktree add failed: " + out)
+    sh("git checkout -q --detach $(git -C /repo rev-parse HEAD) && git reset -q --hard && git clean -qfd -e target", cwd=repo)
+    if patch and patch != "-":
+        rc, out = sh(["git", "apply", os.path.abspath(patch)], cwd=repo)
+        if rc != 0:
+            raise SystemExit("patch does not apply: " + out)
+    sh("rsync -a --delete --exclude target --exclude Cargo.lock %s/harness/ %s/harness/" % (ROOT, S))
+    ct = open(os.path.join(S, "harness", "Cargo.toml")).read().replace('path = "/repo"', 'path = "%s"' % repo)
+    open(os.path.join(S, "harness", "Cargo.toml"), "w").write(ct)
+    sh("cp -f /repo/Cargo.lock %s/Cargo.lock; cp -f /repo/Cargo.lock %s/harness/Cargo.lock" % (repo, S))
+    sh("rsync -a --delete %s/coq/ %s/coq/" % (ROOT, S))
+    env = dict(ENV, VERIF_REPO=repo, VERIF_HARNESS=os.path.join(S, "harness"), VERIF_COQ=os.path.join(S, "coq"),
+               VERIF_OUT=os.path.join(S, "out"), VERIF_EVIDENCE=os.path.join(S, "evidence"))
+    results = {}
+    for pid in pids:
+        t0 = time.time()
+        p = subprocess.run([sys.executable, os.path.join(ROOT, "tools", "verif.py"), pid, "--tier", tier], cwd=ROOT,
+                           stdout=subprocess.PIPE, stderr=subprocess.STDOUT, env=env, timeout=7200)
+        out = p.stdout.decode("utf-8", "replace")
+        lines = [l for l in out.split("\n") if l.startswith(("VIOLATION", "OK ", "KNOWN", "INFRA", "BROKEN", "property"))]
+        results[pid] = {"rc": p.returncode, "lines": lines[:8], "wall": round(time.time() - t0, 1)}
+        print(pid, "rc=%d" % p.returncode, "%.0fs" % (time.time() - t0))
+        for l in lines[:8]:
+            print("   ", l[:400])
+    sh("git reset -q --hard", cwd=repo)
+    return results
+
+
 def run(patch, pids, tier):
     rc, out = sh("git status --porcelain --untracked-files=no", cwd="/repo")
     if out.strip():
@@ -73,5 +112,8 @@ if __name__ == "__main__":
         tier = "quick"
         if "--tier" in args:
             i = args.index("--tier"); tier = args[i + 1]; del args[i:i + 2]
-        r = run(args[0], args[1:], tier)
+        slot = None
+        if "--slot" in args:
+            i = args.index("--slot"); slot = args[i + 1]; del args[i:i + 2]
+        r = run_isolated(args[0], args[1:], tier, slot) if slot is not None else run(args[0], args[1:], tier)
         print(json.dumps(r))
